@@ -62,6 +62,24 @@ THEOREMS = [
     "Verif.C02.no_data_zero_current",
     "Verif.C02.kymo_image_shape",
     "Verif.C02.kymo_no_data_same_shape",
+    # deepening round D
+    "Verif.C02.pixel_sum_total",
+    "Verif.C02.channelPixels_spec",
+    "Verif.C02.kymo_get_image_any",
+    "Verif.C02.scan_get_image_any",
+    "Verif.C02.kymo_image_total",
+    "Verif.C02.scan_image_total",
+    "Verif.C02.expected_total_kymo",
+    "Verif.C02.answers_history_independent",
+    "Verif.C02.first_query_is_get_image",
+    "Verif.C02.query_colour_idempotent",
+    "Verif.C02.seek_regular_second_line",
+    "Verif.C02.first_line_repair",
+    "Verif.C02.fresh_after_repair",
+    "Verif.C02.pixel_is_assigned_samples",
+    "Verif.C02.kymo_entry_is_assigned",
+    "Verif.C02.scan_entry_is_assigned",
+    "Verif.C02.scan_shape_matches_image",
 ]
 RULE = (
     "corpus (documented interleaved-discard wave, non-constant samples per pixel, truncated colours) + exhaustive small "
@@ -79,7 +97,11 @@ RULE = (
     "rgb / Kymo.shape queries on ONE object, compared answer by answer with a stateful model (start, memoised images): "
     "kymographs P<=3, 3-4 lines, k<=2, dead 1-2 whose photon stream starts at EVERY sample of the first line and just "
     "behind it, the other colours absent / complete / recorded after the item / late as well, asked in every order of "
-    "a first round, then all colours and rgb once more (quick: every 37th), plus seeded random sequences on random "
+    "a first round, then all colours and rgb once more (quick: every 37th), plus EVERY sequence of up to three queries on "
+    "small kymographs and scans without a late stream (quick: every 5th), each ALSO replayed query by query on NEW objects "
+    "(history independence; model: c02.kymopure/scanpure), plus regular kymographs lead<=2, k<=3, d<=3, P<=4, n<=4 with a "
+    "green stream 1 sample / half a line / a whole line late (start after the repair and the red image afterwards; quick: "
+    "every 4th), plus seeded random sequences on random "
     "kymographs and scans (colours full/absent/short/long/early/after/before/late/late-far); (b'') kymographs "
     "restricted to a window of whole lines; (c) seeded random kymos/scans (85% up to 8x8x3, 12% up "
     "to 24x24, 3% up to 64x64x5 with k<=8; constant or non-constant samples per pixel, per-line dead times, interleaved "
@@ -227,6 +249,21 @@ def show_shape(shape):
     return "[" + ",".join(str(int(v)) for v in shape) + "]"
 
 
+def show_start(obj, e):
+    """the object's start as a sample index into the info wave it was made of"""
+    try:
+        d = int(obj.start) - int(e.get("start", bc.START))
+        dt = int(e.get("dt", bc.DT))
+        return str(d // dt) if d % dt == 0 else f"off-grid:{d}/{dt}"
+    except Exception as ex:
+        return errname(ex)
+
+
+def seq_has_late(e):
+    """does some colour's photon stream start inside the item (the object will repair its start)?"""
+    return any(shared_span(e, c) == "late" for c in COLORS)
+
+
 def impl_seq(case):
     """the answers of a sequence of queries on ONE object, joined by ';'"""
     e = explicit(case)
@@ -235,7 +272,7 @@ def impl_seq(case):
         try:
             obj = bc.object_from_case(e)
         except Exception as ex:
-            return [errname(ex)]
+            return [errname(ex)] * (2 if seq_has_late(e) else 3)
         for q in case["queries"]:
             try:
                 if q < 3:
@@ -246,7 +283,23 @@ def impl_seq(case):
                     out.append(show_shape(obj.shape))
             except Exception as ex:
                 out.append(errname(ex))
-    return [";".join(out)]
+        res = [";".join(out), show_start(obj, e)]
+        if not seq_has_late(e):
+            # the same queries, each asked to a NEW object (history independence; model side: c02.kymopure/scanpure)
+            fresh = []
+            for q in case["queries"]:
+                try:
+                    obj = bc.object_from_case(e)
+                    if q < 3:
+                        fresh.append(show_img(obj.get_image(COLORS[q])))
+                    elif q == 3:
+                        fresh.append(show_img(obj.get_image("rgb")))
+                    else:
+                        fresh.append(show_shape(obj.shape))
+                except Exception as ex:
+                    fresh.append(errname(ex))
+            res.append(";".join(fresh))
+    return res
 
 
 # ------------------------------------------------------------------ impl
@@ -259,6 +312,16 @@ def show_img(img):
     if not np.array_equal(ints.astype(a.dtype), flat):
         return "non-integer-image"
     return "[" + ",".join(str(int(s)) for s in a.shape) + "] [" + ",".join(map(str, ints.tolist())) + "]"
+
+
+def show_total(img):
+    """total of an image as an exact integer (object arithmetic: no float rounding of the sum)"""
+    a = np.asarray(img)
+    flat = a.ravel()
+    ints = flat.astype(np.int64)
+    if not np.array_equal(ints.astype(a.dtype), flat):
+        return "non-integer-image"
+    return str(sum(int(v) for v in ints))
 
 
 def window_parts(case):
@@ -357,25 +420,71 @@ def public_sum(case):
             return errname(ex)
 
 
+def reg_parts(case):
+    """regular info wave (builders_confocal.infowave: lead-in, n lines of P pixels of k samples, d dead samples behind
+    every line), a red stream covering it (sample i counts 2^(i mod 40)) and a green one starting `late` samples late"""
+    iw = bc.infowave(case["P"], case["n"], case["k"], lead_in=case["lead"], dead=case["d"])
+    red = [1 << (i % 40) for i in range(len(iw))]
+    return iw, red, red[case["late"]:]
+
+
+def reg_in_scope(case):
+    return case["P"] >= 2 and case["n"] >= 2 and case["d"] >= 1 and case["k"] >= 1
+
+
+def impl_regrepair(case):
+    """green (starts inside the first line) is read first: the kymograph repairs its start; then red (covers everything).
+    Observed: the wave itself + the start after the repair (or the exception), and the red image of the repaired item"""
+    iw, red, green = reg_parts(case)
+    e = {"start": bc.START, "dt": bc.DT}
+    with bc.quiet():
+        try:
+            obj = bc.make_kymo(iw, case["P"], {"red": red, "green": green}, lead={"green": -case["late"]})
+        except Exception as ex:
+            return [errname(ex)] * (2 if reg_in_scope(case) else 1)
+        err = None
+        try:
+            obj.get_image("green")
+        except Exception as ex:  # the repair itself failed, or it landed before the green stream begins (outside the
+            err = errname(ex)  # theorems' scope): the start it left behind is still what is compared
+        where = show_start(obj, e)
+        if err is not None and where == "0":
+            where = err
+        out = [enc_list(iw) + " " + where]
+        if reg_in_scope(case):
+            try:
+                out.append(show_img(obj.get_image("red")))
+            except Exception as ex:
+                out.append(errname(ex))
+    return out
+
+
 def impl(case):
     if case["op"] == "window":
         return impl_window(case)
     if case["op"] == "seq":
         return impl_seq(case)
     if case["op"] == "sum":
-        return [direct_sum(case), public_sum(case)]
+        d, pb = direct_sum(case), public_sum(case)
+        return [d, pb, d if d != UNOBSERVED else pb]
+    if case["op"] == "regrepair":
+        return impl_regrepair(case)
     e = explicit(case)
     out = []
     with bc.quiet():
         try:
             obj = bc.object_from_case(e)
         except Exception as ex:
-            return [errname(ex)] * 4
+            return [errname(ex)] * 7
+        totals = []
         for color in COLORS:
             try:
-                out.append(show_img(obj.get_image(color)))
+                img = obj.get_image(color)
+                out.append(show_img(img))
+                totals.append(show_total(img))
             except Exception as ex:
                 out.append(errname(ex))
+                totals.append(errname(ex))
         # metadata queries on a fresh object (nothing cached yet)
         try:
             obj = bc.object_from_case(e)
@@ -391,7 +500,7 @@ def impl(case):
                 )
         except Exception as ex:
             out.append(errname(ex))
-    return out
+    return out + totals  # 3 images, metadata, 3 image totals (c02.total)
 
 
 # ------------------------------------------------------------------ ops
@@ -406,7 +515,14 @@ def ops(case):
         _, _, iwc, chans, _ = window_parts(case)
         return [f"c02.kymo {case['P']} {enc_list(iwc)} 0 {enc_chan(chans[c])}" for c in COLORS]
     if case["op"] == "sum":
-        return [f"c02.sum {enc_list(case['data'])} {enc_list(case['iw'])} {enc_list(case['shape'])}"] * 2  # direct, public
+        a = f"{enc_list(case['data'])} {enc_list(case['iw'])} {enc_list(case['shape'])}"
+        return [f"c02.sum {a}", f"c02.sum {a}", f"c02.assigned {a}"]  # direct, public, direct|public vs the index formula
+    if case["op"] == "regrepair":
+        a = f"{case['lead']} {case['k']} {case['d']} {case['P']} {case['n']}"
+        out = [f"c02.regwave {a}"]
+        if reg_in_scope(case):
+            out.append(f"c02.regafter {a} {enc_list(reg_parts(case)[1])}")
+        return out
     e = explicit(case)
     iw = enc_list(e["iw"])
     lead = e.get("lead") or {}
@@ -414,7 +530,11 @@ def ops(case):
     if case["op"] == "seq":
         chans = " ".join(f"{int(lead.get(c, 0))} {enc_chan(e['channels'].get(c))}" for c in COLORS)
         head = f"c02.kymoseq {e['P']}" if e["kind"] == "kymo" else f"c02.scanseq {e['fast']} {e['P']} {e['slow']} {e['L']}"
-        return [f"{head} {iw} {chans} {enc_list(case['queries'])}"]
+        lines = [f"{head} {iw} {chans} {enc_list(case['queries'])}"]
+        lines.append(lines[0].replace("seq ", "seqoff ", 1))
+        if not seq_has_late(e):
+            lines.append(lines[0].replace("seq ", "pure ", 1))
+        return lines
     if e["kind"] == "kymo":
         for c in COLORS:
             out.append(f"c02.kymo {e['P']} {iw} {int(lead.get(c, 0))} {enc_chan(e['channels'].get(c))}")
@@ -424,6 +544,9 @@ def ops(case):
         for c in COLORS:
             out.append(f"c02.scan {ax} {iw} {int(lead.get(c, 0))} {enc_chan(e['channels'].get(c))}")
         out.append(f"c02.scanmeta {ax} {int(e.get('scan_count', 0))} {iw}")
+    kd = "k" if e["kind"] == "kymo" else "s"
+    for c in COLORS:
+        out.append(f"c02.total {kd} {iw} {int(lead.get(c, 0))} {enc_chan(e['channels'].get(c))}")
     return out
 
 
@@ -549,6 +672,11 @@ def oracle_seq(case, ia):
         return None  # the object could not even be made: compared with the model only
     spans = {c: shared_span(e, c) for c in COLORS}
     late = [c for c in COLORS if spans[c] == "late"]
+    if not late and len(ia) > 2 and ia[2] != ia[0]:
+        fresh = ia[2].split(";")
+        i = next((j for j, (a, b) in enumerate(zip(ans, fresh)) if a != b), 0)
+        return (f"history: query #{i} of the sequence {Q} on one object answered {ans[i][:160]}, a NEW object asked the "
+                f"same question first answers {fresh[i][:160] if i < len(fresh) else '?'} (the image of a colour cannot depend on what was asked before)")
     if e["kind"] == "scan" or not late:
         exp = {}
         for c in COLORS:
@@ -595,6 +723,17 @@ def oracle_seq(case, ia):
             return (f"missing-colour: sequence {Q} on one kymograph: in the end the {c} image has shape {fin[i][0]} but the "
                     f"{COLORS[judged[0]]} image has shape {fin[judged[0]][0]} (a colour without data is a zero image of the "
                     f"SAME shape; every colour is read from the same info wave)")
+    # the item as it is NOW: its start is sample `off` of the info wave (read off the object after the sequence); every
+    # colour whose stream does not start inside THAT window is the property's reconstruction of that window
+    if len(ia) > 1 and ia[1].isdigit() and 0 < int(ia[1]) < n:
+        off = int(ia[1])
+        lead = e.get("lead") or {}
+        e2 = dict(e, iw=e["iw"][off:], lead={c: int(lead.get(c, 0)) + off for c in COLORS})
+        for i, c in enumerate(COLORS):
+            x = expected_colour(e2, c)
+            if x is not None and ans[-4 + i] != show_expected(x[0]):
+                return (f"{x[1]}: sequence {Q} on one kymograph left its start at sample {off}; the {c} image is then "
+                        f"{ans[-4 + i][:200]}, the reconstruction of the item from that start is {show_expected(x[0])[:200]}")
     if len(judged) == 3 and ans[-1] != stack_str(fin):
         return f"pixel-placement: sequence {Q}: the final rgb image {ans[-1][:200]} is not the stack of the three colour images"
     return None
@@ -637,6 +776,17 @@ def oracle(case, ia):
         return None
     if case["op"] == "seq":
         return oracle_seq(case, ia)
+    if case["op"] == "regrepair":
+        # the item as it is after the repair: red covers every sample, so its image is the reconstruction of the info
+        # wave from the object's (new) start - whatever that start is
+        if len(ia) > 1 and " " in ia[0] and ia[0].split(" ")[1].isdigit():
+            iw, red, _ = reg_parts(case)
+            off = int(ia[0].split(" ")[1])
+            x = expected_colour({"kind": "kymo", "P": case["P"], "iw": iw[off:], "channels": {"red": red[off:]}, "lead": {}}, "red")
+            if x is not None and ia[1] != show_expected(x[0]):
+                return (f"{x[1]}: regular kymograph {case}: after the first-line repair the start is sample {off}; red is "
+                        f"{ia[1][:200]}, the reconstruction from that start is {show_expected(x[0])[:200]}")
+        return None
     e = explicit(case)
     if any(c > 2 for c in e["iw"]):
         return None
@@ -679,7 +829,7 @@ def oracle(case, ia):
 
 
 def nontrivial(case, ia):
-    if case["op"] == "window":
+    if case["op"] in ("window", "regrepair"):
         return True
     if case["op"] == "sum":
         seen = [a for a in ia if a != UNOBSERVED]
@@ -710,6 +860,9 @@ def tags(case, r):
     if case["op"] == "window":
         t["kind"] = "kymo"
         return t
+    if case["op"] == "regrepair":
+        t["kind"] = "kymo"
+        return t
     if case["op"] != "sum":
         e = explicit(case)
         t["kind"] = e["kind"]
@@ -719,6 +872,11 @@ def tags(case, r):
 
 
 def shrink(case):
+    if case["op"] == "regrepair":
+        for key, lo in (("n", 1), ("P", 1), ("k", 1), ("lead", 0), ("d", 0), ("late", 1)):
+            if case[key] > lo:
+                yield dict(case, **{key: case[key] - 1})
+        return
     if case["op"] == "window":
         if case["l1"] - case["l0"] > 1:
             yield dict(case, l1=case["l0"] + 1)
@@ -899,6 +1057,54 @@ def seq_small_scope(quick):
                                                **gen_case("seq", lay, i, modes=modes, lateness=lateness, style="ids", fast=i % 3)}
 
 
+def seq_pure_small_scope(quick):
+    """objects WITHOUT a photon stream starting inside them (the family of answers_history_independent): small kymographs
+    and scans (both axis orders), colours full / short / absent / recorded after the item, EVERY sequence of up to three
+    queries over colours, rgb and (kymographs) Kymo.shape; each sequence is also replayed query by query on new objects"""
+    layouts = [
+        ("kymo", {"P": 2, "L": None, "lines": 2, "k": 1, "lead_in": 1, "dead": 1, "trunc": None}, {}),
+        ("kymo", {"P": 1, "L": None, "lines": 3, "k": 2, "lead_in": 0, "dead": 1, "trunc": 5}, {}),
+        ("scan", {"P": 2, "L": 2, "lines": 4, "k": 1, "lead_in": 0, "dead": 1, "trunc": None}, {"fast": 0, "slow": 1}),
+        ("scan", {"P": 2, "L": 2, "lines": 3, "k": 2, "lead_in": 1, "dead": 0, "trunc": None}, {"fast": 1, "slow": 0}),
+    ]
+    mode_sets = [
+        {"red": "full", "green": "short", "blue": "absent"},
+        {"red": "absent", "green": "full", "blue": "after"},
+        {"red": "early+short", "green": "absent", "blue": "full"},
+    ]
+    i = 0
+    for kind, lay, ax in layouts:
+        alphabet = (0, 1, 2, 3, 4) if kind == "kymo" else (0, 1, 2, 3)
+        for mi, modes in enumerate(mode_sets):
+            for n in (1, 2, 3):
+                for qs in itertools.product(alphabet, repeat=n):
+                    i += 1
+                    if quick and i % 5:
+                        continue
+                    yield {"stream": "seq-small-scope", "kind": kind, "queries": list(qs),
+                           **gen_case("seq", lay, 1000 + mi, modes=modes, style="ids", **ax)}
+
+
+def reg_small_scope(quick):
+    """regular kymographs (the family of seek_regular_second_line / first_line_repair / fresh_after_repair) with a green
+    stream starting 1 sample late, in the middle of the first line and on the first sample of the second line; plus
+    the layouts outside the theorems' hypotheses (one pixel per line, no dead time, a single line)"""
+    i = 0
+    for lead in (0, 1, 2):
+        for k in (1, 2, 3):
+            for d in (0, 1, 2, 3):
+                for P in (1, 2, 3, 4):
+                    for n in (1, 2, 3, 4):
+                        s2 = lead + P * k + d
+                        for late in sorted({1, max(1, s2 // 2), s2}):
+                            i += 1
+                            if quick and i % 4:
+                                continue
+                            if late >= lead + n * (P * k + d):
+                                continue
+                            yield {"stream": "small-scope", "op": "regrepair", "lead": lead, "k": k, "d": d, "P": P, "n": n, "late": late}
+
+
 SEQ_MODES = ["full", "full", "absent", "absent", "short", "long", "early", "early+short", "after", "before"]
 
 
@@ -940,6 +1146,8 @@ def cases(tier, rng):
     yield from corpus_cases()
     yield from window_cases(rng.fork("c02-window"), 120 if quick else 3000)
     yield from seq_small_scope(quick)
+    yield from reg_small_scope(quick)
+    yield from seq_pure_small_scope(quick)
     yield from seq_random(rng.fork("c02-seq"), 500 if quick else 8000)
 
     # ---- (a) every info wave over {0,1,2} up to a length, direct call
@@ -1088,7 +1296,12 @@ def extra_coverage(results):
     pix_hist = {"0": 0, "1-9": 0, "10-99": 0, "100-999": 0, "1000+": 0}
     k_nonconst = dead_per_line = intra = trunc = flip = explicit_frames = partial_last = lead_in = 0
     max_samples = max_pixels = 0
-    seq_n = seq_queries = seq_repaired = seq_hits = 0
+    seq_n = seq_queries = seq_repaired = seq_hits = seq_fresh = 0
+    totals_ok = totals_err = 0
+    seq_final_start = {}
+    reg_seen = {}
+    branches = {"no-data:zeros": 0, "no-data:no-boundary": 0, "shared-span:walk": 0, "shared-span:no-boundary": 0,
+                "starts-inside-scan": 0, "size-mismatch/other": 0}
     for r in results:
         c = r["case"]
         kinds[c["op"] + "/" + c.get("stream", "?")] = kinds.get(c["op"] + "/" + c.get("stream", "?"), 0) + 1
@@ -1097,6 +1310,12 @@ def extra_coverage(results):
                 errs[a] = errs.get(a, 0) + 1
         if c["op"] == "window":
             continue
+        if c["op"] == "regrepair":
+            key = "in-scope" if reg_in_scope(c) else "P=1" if c["P"] < 2 else "one-line" if c["n"] < 2 else "no-dead-time"
+            w = r["impl"][0].split(" ")[-1]
+            land = "error" if not w.isdigit() else "second-line" if int(w) == c["lead"] + c["P"] * c["k"] + c["d"] else "elsewhere"
+            reg_seen[key + ":" + land] = reg_seen.get(key + ":" + land, 0) + 1
+            continue
         if c["op"] == "seq":
             seq_n += 1
             seq_queries += len(c["queries"])
@@ -1104,6 +1323,10 @@ def extra_coverage(results):
             imgs = {a.split(" ")[0] for q, a in zip(c["queries"], ans) if q < 3 and " " in a}
             seq_repaired += 1 if len(imgs) > 1 else 0
             seq_hits += sum(max(0, sum(1 for q, a in zip(c["queries"], ans) if q == col and " " in a) - 1) for col in range(3))
+            seq_fresh += 1 if len(r["impl"]) > 2 else 0
+            if len(r["impl"]) > 1:
+                seq_final_start[r["impl"][1] if r["impl"][1] in ("0",) or not r["impl"][1].isdigit() else "moved"] = \
+                    seq_final_start.get(r["impl"][1] if r["impl"][1] in ("0",) or not r["impl"][1].isdigit() else "moved", 0) + 1
         if c["op"] == "sum":
             n = bc.count_pixels(c["iw"])
         else:
@@ -1135,6 +1358,23 @@ def extra_coverage(results):
                     ln = len(d) - m
                     key = ("early+" if m > 0 else "") + ("short" if ln < len(e["iw"]) else "long" if ln > len(e["iw"]) else "full")
                 modes_seen[key] = modes_seen.get(key, 0) + 1
+            if c["op"] in ("kymo", "scan") and len(r["impl"]) == 7:
+                # which branch of channelPixels_spec / colourPixelsSpec each colour took, and the totals compared
+                for ci, col in enumerate(COLORS):
+                    a, tot = r["impl"][ci], r["impl"][4 + ci]
+                    sp = shared_span(e, col)
+                    if tot.endswith("Error") or tot == "non-integer-image":
+                        totals_err += 1
+                    else:
+                        totals_ok += 1
+                    if sp == "late":
+                        branches["starts-inside-scan"] += 1
+                    elif a.startswith("["):
+                        branches["no-data:zeros" if sp is None else "shared-span:walk"] += 1
+                    elif a == "IndexError":
+                        branches["no-data:no-boundary" if sp is None else "shared-span:no-boundary"] += 1
+                    else:
+                        branches["size-mismatch/other"] += 1
         max_pixels = max(max_pixels, n)
         b = "0" if n == 0 else "1-9" if n < 10 else "10-99" if n < 100 else "100-999" if n < 1000 else "1000+"
         pix_hist[b] += 1
@@ -1157,6 +1397,12 @@ def extra_coverage(results):
         "sequence_queries": seq_queries,
         "sequence_repeated_colour_answers": seq_hits,
         "sequences_where_a_colour_changed_shape": seq_repaired,
+        "sequences_replayed_query_by_query_on_new_objects": seq_fresh,
+        "sequence_final_start": seq_final_start,
+        "regular_kymograph_repairs": reg_seen,
+        "image_totals_compared": totals_ok,
+        "image_total_errors_compared": totals_err,
+        "colour_pixels_branches": branches,
         "exhaustive": False,
         "exhaustive_note": "the small-scope streams enumerate their finite spaces completely (thorough tier; the quick "
         "tier strides them); the random streams do not",
